@@ -318,6 +318,10 @@ func (h *harness) account(spec *caseSpec, d *driver) {
 	if spec.Kind == "sched" {
 		key = "sched:" + spec.Sched + "|" + spec.Pol.String()
 	}
+	if spec.Kind == "nats" {
+		key = "nats:" + natsNormalise(spec.Ops)
+		kept, failures = spec.Ops, strings.Count(key, "D")
+	}
 	if failures > 0 || len(spec.Faults) > 0 || spec.Kind == "sched" || len(kept) >= 2 {
 		h.run.Distinct(key)
 	}
@@ -424,7 +428,7 @@ func runC15(tier string, args []string) int {
 		return replay(h, args[1])
 	}
 
-	run.Rule("cases = (a) 3 requests in flight and the 3-frame answer stream cut at every byte offset, ended by EOF (TTransportException and raw) or a connection reset (TTransportException and plain), then reopen, request, second failure, reopen, request, close; (b) the k-th Read/Write/Flush/Open/Close of the stream failing for every k of a 3-request conversation (answers in one piece and in three), single faults and 2-3 read faults in a row; (c) every history over {Open, Close, peerEOF, peerError, garbage, Request, IsOpen} up to the tier's length, under MaxReopenAttempts 0-3 x underlying Open failing 0-3 times x with/without monitor x (InitialWait, MaxWait) pairs half of which are not a power-of-two ratio, reduced to distinct normalised histories, plus random histories up to length 30 including Close() racing a peer error; (e) failure streaks: MaxReopenAttempts up to 8 with the underlying Open failing up to 8 times in a row under wait pairs such as 3/5, 2/5, 1/3, 3/7, 1/30 ms, every recorded wait value <= MaxWait, plus the policy object alone driven as values over a grid of InitialWait <= MaxWait; (d) three forced schedules of Close/Open/failure against the exit of the old read loop. Every case runs on a fresh transport and always ends with a Close that must return. distinct = kind + normalised op string + policy (+ fault plan)")
+	run.Rule("cases = (a) 3 requests in flight and the 3-frame answer stream cut at every byte offset, ended by EOF (TTransportException and raw) or a connection reset (TTransportException and plain), then reopen, request, second failure, reopen, request, close; (b) the k-th Read/Write/Flush/Open/Close of the stream failing for every k of a 3-request conversation (answers in one piece and in three), single faults and 2-3 read faults in a row; (c) every history over {Open, Close, peerEOF, peerError, garbage, Request, IsOpen} up to the tier's length, under MaxReopenAttempts 0-3 x underlying Open failing 0-3 times x with/without monitor x (InitialWait, MaxWait) pairs half of which are not a power-of-two ratio, reduced to distinct normalised histories, plus random histories up to length 30 including Close() racing a peer error; (e) failure streaks: MaxReopenAttempts up to 8 with the underlying Open failing up to 8 times in a row under wait pairs such as 3/5, 2/5, 1/3, 3/7, 1/30 ms, every recorded wait value <= MaxWait, plus the policy object alone driven as values over a grid of InitialWait <= MaxWait; (f) the NATS client transport (NewFNatsTransport) over a connection whose link to an embedded nats-server is cut and healed through a TCP proxy: every history over {Open, Close, IsOpen, Request, link down, link up} up to the tier's length plus random ones up to length 20, each followed by heal, IsOpen, Request, Close, IsOpen, Open, Request, Close; (d) three forced schedules of Close/Open/failure against the exit of the old read loop. Every case runs on a fresh transport and always ends with a Close that must return. distinct = kind + normalised op string + policy (+ fault plan)")
 	run.Assume("rig.ScriptTransport models a blocking byte stream; a write/flush fault breaks the stream in both directions (the read side fails with the same error)")
 	run.Assume("a peer EOF may be published as a clean close (nil cause); the monitor runner ends after a clean close or a no-reopen decision, as documented in transport_monitor.go")
 	run.Assume("goroutine dumps (runtime.Stack) print the receiver pointer of non-inlined methods and the wait reason of parked goroutines")
@@ -508,6 +512,19 @@ func runC15(tier string, args []string) int {
 	rnd := genRandom(nRand, 30, run.Rand("rand"))
 	h.runAll("random", rnd, workers)
 	run.Set("history_max_length_exhaustive", maxLen)
+
+	// (f) the NATS client transport across broker outages
+	natsLen, natsRand := 4, 150
+	if thorough {
+		natsLen, natsRand = 5, 1500
+	}
+	if raceChild {
+		natsLen, natsRand = 3, 50
+	}
+	nh := genNatsHistories(natsLen)
+	h.runAll("nats_histories", nh, 16)
+	h.runAll("nats_random", genNatsRandom(natsRand, 20, run.Rand("nats-rand")), 16)
+	run.Set("nats_history_max_length_exhaustive", natsLen)
 
 	// evidence
 	h.mu.Lock()
